@@ -419,6 +419,101 @@ fn chunk_signed(acc: &mut Acc) -> usize {
     n
 }
 
+// ------------------------------------------------------------------ mutants of the XML payload
+
+/// E5 on the XML payload aws-sdk-s3 writes for the fully populated input of every operation that has one: every element and
+/// every attribute deleted, every element duplicated, an attribute removed from a later copy of its enclosing element, text
+/// turned to CDATA / split by a comment. Differential oracle through the whole adapter: a payload from which something was
+/// deleted (or in which something was repeated) is refused, or the backend's input differs from the original - it is never
+/// handed the ORIGINAL input (the missing member defaulted, or supplied from elsewhere; the repeated one merged); a
+/// meaning-preserving rewrite, if accepted, yields the original input.
+fn payload_mutants(acc: &mut Acc) -> usize {
+    use crate::props::c13::{mutants, parse_tree};
+    let ds = driver::all();
+    let cases: Vec<usize> = (0..ds.len()).filter(|di| !UNREACHABLE.contains(&ds[*di].name()) && op_model(ds[*di].name()).is_some_and(|m| m.input.iter().any(|x| x.pos == Pos::Payload && x.shape != "blob" && x.shape != "string"))).collect();
+    let n = cases.len();
+    par_items(acc, &cases, |a, _ci, di| {
+        let d = ds[*di].as_ref();
+        let labels = d.input_alt_labels();
+        let Some(full) = labels.iter().position(|l| l == driver::FULL_INPUT) else { return };
+        // the fully populated input if the SDK encodes it, else the one with the payload member present
+        let present: Option<usize> = labels.iter().position(|l| l.ends_with("=Some(base)") && op_model(d.name()).unwrap().input.iter().any(|m| m.pos == Pos::Payload && format!(".{}=Some(base)", m.field) == *l));
+        let mut chosen: Option<(Vec<usize>, sdk::BaseReq)> = None;
+        for alts in [vec![full], present.into_iter().collect::<Vec<_>>(), vec![]] {
+            if let Some(b) = sdk::capture(d, &alts, Addressing::Path) {
+                if !b.body.is_empty() {
+                    chosen = Some((alts, b));
+                    break;
+                }
+            }
+        }
+        let Some((alts, base)) = chosen else {
+            a.count("operations whose XML payload the SDK does not encode (payload mutants skipped)", 1);
+            return;
+        };
+        a.count(&format!("payload mutants based on: {}", if alts == vec![full] { "the fully populated input".to_owned() } else { format!("a smaller input, the SDK does not encode the full one ({})", d.name()) }), 1);
+        let Ok(doc) = String::from_utf8(base.body.clone()) else { return };
+        let Ok(tree) = parse_tree(&doc) else { return };
+        // the original: what the backend records for the unmutated request
+        let record = |body: &[u8]| -> (Option<String>, String) {
+            let mut r = base.req.clone();
+            r.set_header("content-length", &body.len().to_string());
+            r.remove_header("content-md5");
+            r.remove_header("x-amz-checksum-crc32");
+            r.remove_header("x-amz-sdk-checksum-algorithm");
+            let (svc, log) = SvcCfg::default().build();
+            let out = call(&svc, &r, body_one_frame(body));
+            let rec = backend_calls(&log).into_iter().find(|c| c.op == d.name()).map(|c| c.input_debug);
+            (rec, out.verdict())
+        };
+        let (Some(original), _) = record(doc.as_bytes()) else {
+            a.count(&format!("payload mutants skipped: the unmutated replay of {} is not delivered", d.name()), 1);
+            return;
+        };
+        for mu in mutants(&doc, &tree) {
+            let class = match mu.kind {
+                "delete-element" | "attr-remove" | "attr-missing-in-a-later-copy" | "duplicate-element" => "lossy",
+                "cdata" | "comment-split" | "numeric-char-ref" | "attr-quote-style" | "attr-reorder" => "meaning-preserving",
+                _ => continue,
+            };
+            let id = || format!("payload/{}/{}", d.name(), mu.label);
+            if !a.selected(&id) {
+                continue;
+            }
+            a.eval();
+            a.nontrivial(fnv(id().as_bytes()));
+            let (rec, verdict) = record(&mu.doc);
+            match (class, rec) {
+                (_, None) => a.outcome(&format!("payload {}: refused", mu.kind)),
+                ("lossy", Some(r)) if r == original => {
+                    // (an element whose deletion changes nothing was carrying a default the SDK writes out: only judged when
+                    //  the same deletion on the only occurrence is refused or changes the input - i.e. for later copies)
+                    if mu.kind == "duplicate-element" {
+                        a.outcome(&format!("payload {}: ACCEPTED AS THE ORIGINAL INPUT", mu.kind));
+                        a.fail(&format!("C02/payload/{}-accepted-as-the-original-input/{}", mu.kind, d.name()), 0, id(), format!("{}: the payload {:?} was accepted ({verdict}) and the backend was handed the very input of the unmutated payload", d.name(), String::from_utf8_lossy(&mu.doc).chars().take(600).collect::<String>()), json!({"recorded": r.chars().take(600).collect::<String>()}));
+                    } else {
+                        a.outcome(&format!("payload {}: accepted, same input (the deleted part carried a default)", mu.kind));
+                    }
+                }
+                // something removed from a *copy*: if that is accepted, the backend's input must differ from the input the intact
+                // copy yields (else the missing part was supplied from elsewhere - e.g. from the earlier occurrence)
+                ("lossy", Some(r)) if mu.twin.as_ref().is_some_and(|t| record(t).0.as_deref() == Some(r.as_str())) => {
+                    a.outcome(&format!("payload {}: ACCEPTED WITH THE MISSING PART SUPPLIED FROM ELSEWHERE", mu.kind));
+                    a.fail(&format!("C02/payload/missing-part-of-a-later-copy-supplied-from-elsewhere/{}", d.name()), 0, id(), format!("{}: the payload {:?} lacks, in a later copy, what the earlier occurrence has; it was accepted ({verdict}) and the backend's input equals the one of the payload whose copy is intact", d.name(), String::from_utf8_lossy(&mu.doc).chars().take(700).collect::<String>()), json!({"recorded": r.chars().take(700).collect::<String>()}));
+                }
+                ("lossy", Some(_)) => a.outcome(&format!("payload {}: accepted, different input", mu.kind)),
+                (_, Some(r)) if r == original => a.outcome(&format!("payload {}: same input", mu.kind)),
+                (_, Some(r)) => {
+                    a.outcome(&format!("payload {}: INPUT CHANGED", mu.kind));
+                    a.fail(&format!("C02/payload/meaning-preserving-rewrite-changes-the-input/{}", mu.kind), 0, id(), format!("{}: {:?} has the XML meaning of the SDK's payload but the backend was handed another input", d.name(), String::from_utf8_lossy(&mu.doc).chars().take(600).collect::<String>()), json!({"recorded": r.chars().take(600).collect::<String>(), "original": original.chars().take(600).collect::<String>()}));
+                }
+            }
+        }
+        let _ = alts;
+    });
+    n
+}
+
 // ------------------------------------------------------------------ rejection half
 
 #[derive(Clone, Debug)]
@@ -644,7 +739,7 @@ fn reject(acc: &mut Acc, _tier: Tier) -> serde_json::Value {
 
 pub fn run(ctx: &Ctx) -> (Acc, Report) {
     let mut acc = ctx.acc();
-    let part = ctx.replay.as_deref().map(|r| if r.starts_with("fwd/") { "fwd" } else if r.starts_with("sdkdefault/") { "sdkdefault" } else if r.starts_with("chunksigned/") { "chunksigned" } else { "rej" });
+    let part = ctx.replay.as_deref().map(|r| if r.starts_with("fwd/") { "fwd" } else if r.starts_with("sdkdefault/") { "sdkdefault" } else if r.starts_with("chunksigned/") { "chunksigned" } else if r.starts_with("payload/") { "payload" } else { "rej" });
     let mut extra = serde_json::Map::new();
     if part.is_none_or(|p| p == "fwd") {
         if let serde_json::Value::Object(m) = forward(&mut acc, ctx.tier) {
@@ -656,6 +751,9 @@ pub fn run(ctx: &Ctx) -> (Acc, Report) {
     }
     if ctx.replay.as_deref().is_none_or(|r| r.starts_with("chunksigned/")) {
         extra.insert("chunk_signed_upload_cases".into(), json!(chunk_signed(&mut acc)));
+    }
+    if ctx.replay.as_deref().is_none_or(|r| r.starts_with("payload/")) {
+        extra.insert("operations_with_payload_mutants".into(), json!(payload_mutants(&mut acc)));
     }
     if part.is_none_or(|p| p == "rej") {
         if let serde_json::Value::Object(m) = reject(&mut acc, ctx.tier) {
